@@ -108,6 +108,45 @@ def sliceindex(r, p8):
     return None
 
 
+def sliceindex_mut(r, p8, ety="u64"):
+    """The `_mut` variants, split_at_mut and the chunk views inside a const item (lengths / first elements observed):
+    the const evaluator rejects any out-of-bounds pointer arithmetic even when the result is never used."""
+    if r["zst"]:
+        return None
+    op, ln, a, b, exp = r["op"], r["len"], p8(r["a"]), p8(r["b"]), r["exp"]
+    init = "[%s]" % ", ".join("%d%s" % (i + 1, ety) for i in range(ln))
+    decl = "let mut arr: [%s; %d] = %s; let s: &mut [%s] = &mut arr;" % (ety, ln, init, ety)
+    elems = lambda w: [i + 1 for i in range(w[0], w[0] + w[1])]
+    first = lambda w: (w[1], (w[0] + 1) if w[1] else 0)         # (length, first element or 0)
+    obs = "(x.len(), if x.is_empty() { 0 } else { x[0] as usize })"
+    if op in ("get_from", "get_up_to", "get_range"):
+        call = "konst::slice::%s_mut(s, %s)" % (op, ("%d, %d" % (a, b)) if op == "get_range" else str(a))
+        body = "const R: (usize, usize) = { %s match %s { Some(x) => %s, None => (99, 99) } }; format!(\"{:?}\", R)" % (decl, call, obs)
+        return body, str((99, 99) if "none" in exp else first(exp["some"]))
+    if op in ("slice_from", "slice_up_to", "slice_range"):
+        call = "konst::slice::%s_mut(s, %s)" % (op, ("%d, %d" % (a, b)) if op == "slice_range" else str(a))
+        body = "const R: (usize, usize) = { %s let x = %s; %s }; format!(\"{:?}\", R)" % (decl, call, obs)
+        return body, str(first(exp))
+    if op in ("split_at", "split_at_mut"):
+        body = ("const R: (usize, usize, usize, usize) = { %s let (x, y) = konst::slice::split_at_mut(s, %d); "
+                "(x.len(), if x.is_empty() { 0 } else { x[0] as usize }, y.len(), if y.is_empty() { 0 } else { y[0] as usize }) }; format!(\"{:?}\", R)" % (decl, a))
+        return body, str(first(exp[0]) + first(exp[1]))
+    if op in ("as_chunks", "as_rchunks") and 1 <= r["a"] <= 12:
+        n = r["a"]
+        call = "konst::slice::%s::<%s, %d>(s)" % (op, ety, n)
+        arrs, rem = ("c.0", "c.1") if op == "as_chunks" else ("c.1", "c.0")
+        body = ("const R: (usize, usize, usize) = { let arr: [%s; %d] = %s; let s: &[%s] = &arr; let c = %s; "
+                "(%s.len(), %s.len(), if %s.is_empty() { 0 } else { %s[0][0] as usize }) }; format!(\"{:?}\", R)"
+                % (ety, ln, init, ety, call, arrs, rem, arrs, arrs))
+        return body, str((exp["arrs"], exp["rem"][1], (exp["awin"][0] + 1) if exp["arrs"] else 0))
+    if op == "try_into_array" and 1 <= r["a"] <= 12:
+        n = r["a"]
+        body = ("const R: usize = { %s match konst::slice::try_into_array_mut::<%s, %d>(s) { Ok(x) => x[0] as usize, Err(_) => 99 } }; format!(\"{}\", R)"
+                % (decl, ety, n))
+        return body, str(1 if "ok" in exp else 99)
+    return None
+
+
 def cstr(r):
     b = r["b"]
     def one(fn, exp):
